@@ -565,6 +565,8 @@ static int vi_curword(struct lbuf *lb, char *dst, int len, int row, int off, cha
 	if (beg >= end)
 		return 1;
 	len = len - 1 < end - beg ? len - 1 : end - beg;
+	while (len > 0 && (((unsigned char) beg[len]) & 0xc0) == 0x80)
+		len--;		/* cut short: not inside a character */
 	dst[len] = '\0';
 	memcpy(dst, beg, len);
 	return 0;
